@@ -120,6 +120,10 @@ Print Assumptions C15_window_snapshot_merges_unexpired.
 Check (C15_window_new_bucket_covers_sample : forall dur reftime now, 0 < dur -> reftime <= now ->
   next_begin dur reftime now <= now /\ now < next_begin dur reftime now + dur).
 Print Assumptions C15_window_new_bucket_covers_sample.
+Check (C15_quantile_label_shape : forall fc fd,
+  ~ In 46 (qlabel fc fd)
+  /\ (qlabel fc fd = [109; 105; 110] \/ qlabel fc fd = [109; 97; 120] \/ exists r, qlabel fc fd = 112 :: r)).
+Print Assumptions C15_quantile_label_shape.
 Check (C15_hypotheses_satisfiable : (forall a b c : F ZO, fle ZO a b = true -> fle ZO b c = true -> fle ZO a c = true)
   /\ (forall a : F ZO, fsame ZO a a = true)
   /\ (forall x : F ZO, fle ZO None x = false)).
